@@ -111,8 +111,10 @@ func hBuildFunc() *hShape {
 		}
 		b := f.NewBlock(name)
 		s.add(b, true)
+		// thorough: two instructions in a single block, one per block when there
+		// are two blocks (two of each would be about a million shapes)
 		maxI := 1
-		if vfTier() > 0 {
+		if vfTier() > 0 && nb == 1 {
 			maxI = 2
 		}
 		ni := vfLen("insts"+string(rune('0'+bi)), 0, maxI)
